@@ -230,6 +230,7 @@ namespace sim
     std::vector<elem_event> elog;
     bool                    elog_overflow;
     std::vector<alloc_call> allocs;   // allocate() calls of the op in flight
+    std::vector<int>        cd_ids;   // ids of the allocators whose construct()/destroy() ran in it
     unsigned                deallocs;
 
     // --- violations of the step in flight (the first one decides minimisation; the others are
@@ -396,6 +397,19 @@ namespace sim
       --g.countdown;
   }
 
+  inline void
+  note_construct_destroy_id (int id) noexcept
+  {
+    state& g = G ();
+    if (! g.in_op)
+      return;
+    for (std::size_t i = 0; i < g.cd_ids.size (); ++i)
+      if (g.cd_ids[i] == id)
+        return;
+    if (g.cd_ids.size () < 8)
+      g.cd_ids.push_back (id);
+  }
+
   // An event of a noexcept operation: counted, never thrown.
   inline void
   on_event_nothrow (int kind) noexcept
@@ -440,6 +454,7 @@ namespace sim
     g.elog.clear ();
     g.elog_overflow = false;
     g.allocs.clear ();
+    g.cd_ids.clear ();
     g.deallocs      = 0;
     g.count_mask2   = count_mask2;
     g.had_plan = (0 <= f.k && f.mask != 0);
